@@ -327,6 +327,18 @@ impl Qcow2Header {
             .into());
         }
 
+        // both tables are loaded into memory in full: refuse sizes beyond
+        // the limits of the format instead of trying to allocate them
+        let rt_bytes = (header.refcount_table_clusters as u64) << cluster_bits;
+        if rt_bytes > Self::MAX_REFCOUNT_TABLE_SIZE as u64 {
+            return Err(format!("qcow2 refcount table of {rt_bytes} bytes is too big").into());
+        }
+
+        let l1_bytes = (header.l1_size as u64) * size_of::<u64>() as u64;
+        if l1_bytes > Self::MAX_L1_SIZE as u64 {
+            return Err(format!("qcow2 L1 table of {l1_bytes} bytes is too big").into());
+        }
+
         let backing_filename = if header.backing_file_offset != 0 {
             let (offset, length) = (header.backing_file_offset, header.backing_file_size);
             if length > 1023 {
